@@ -401,10 +401,10 @@ func TestVerifC01(t *testing.T) {
 			name := pdf.Name(c.Rng.BytesFrom(gen.Sigma, n))
 			switch c.Rng.Intn(3) {
 			case 0:
-				name = pdf.Name(c.Rng.BytesFrom([]byte("abcdefghijklmnopqrstuvwxyz"), kit.Pick(c.Rng, []int{2000, 4000, 4090})))
+				name = pdf.Name(c.Rng.BytesFrom([]byte("abcdefghijklmnopqrstuvwxyz"), kit.Pick(c.Rng, []int{2000, 4000, 4090, 4095, 4096})))
 			case 1:
 				// every byte needs a #xx escape: the written token is three times as long as the name
-				name = pdf.Name(c.Rng.BytesFrom([]byte("#()<>[]{}/% \x00\t\r\n\x7f\x80\xff"), kit.Pick(c.Rng, []int{1365, 1366, 1400, 2048, 4000, 4090})))
+				name = pdf.Name(c.Rng.BytesFrom([]byte("#()<>[]{}/% \x00\t\r\n\x7f\x80\xff"), kit.Pick(c.Rng, []int{1365, 1366, 1400, 2048, 4000, 4090, 4096})))
 			}
 			c01Contexts(c, "limits/name", opt, []pdf.Object{name, pdf.Integer(1)})
 			c.R.Seen("name-lengths", fmt.Sprint(len(name)))
@@ -418,6 +418,15 @@ func TestVerifC01(t *testing.T) {
 			}
 			c01Contexts(c, "limits/string", opt, []pdf.Object{s, s[:n/2]})
 			c.R.Seen("string-lengths", fmt.Sprint(n))
+			if c.Index == 2 {
+				// the documented cap itself (scanner.go: maxStringBytes), literal and hexadecimal
+				const maxStringBytes = 16 << 20
+				text := pdf.String(c.Rng.BytesFrom([]byte("abcdefghijklmnopqrstuvwxyz ()"), maxStringBytes))
+				c01Check(c, "limits/string-cap", opt, []pdf.Object{text, pdf.Integer(1)})
+				bin := pdf.String(bytes.Repeat([]byte{0x80, 0xff, 0x00, 0x90}, maxStringBytes/4))
+				c01Check(c, "limits/string-cap", opt, []pdf.Object{bin, pdf.Integer(1)})
+				c.R.Seen("string-lengths", fmt.Sprint(maxStringBytes))
+			}
 		case 3: // numbers with long digit strings
 			objs := []pdf.Object{pdf.Real(math.MaxFloat64), pdf.Real(math.SmallestNonzeroFloat64),
 				pdf.Real(-math.MaxFloat64), pdf.Integer(math.MinInt64), g.Real(), g.Real()}
